@@ -199,6 +199,45 @@ def _clearing_loops(f):
     return out
 
 
+def _worklist_replaced(h, none_stores):
+    """(work list name, assignment) when the None stores sit in `while <q>: t = <q>.pop(); ..` and the loop body rebinds <q> to a
+    value built from `t.children` that does not contain <q> itself (and not under a test of <q>): a positively wrong work-list step"""
+    for wl in [n for n in walk_no_nested(h.node) if isinstance(n, ast.While)]:
+        inside = {id(x) for x in ast.walk(wl)}
+        if not any(id(st) in inside for st in none_stores):
+            continue
+        tn = wl.test
+        m = match("len($q) > 0", tn) or match("len($q) != 0", tn) or match("len($q)", tn) or match("len($q) >= 1", tn) or match("$q != []", tn) or \
+            match("0 < len($q)", tn)
+        q = m['q'] if m else tn
+        if not isinstance(q, ast.Name):
+            continue
+        q = q.id
+        popped = None
+        for st in wl.body:
+            if isinstance(st, ast.Assign) and len(st.targets) == 1 and isinstance(st.targets[0], ast.Name) and isinstance(st.value, ast.Call) and \
+                    isinstance(st.value.func, ast.Attribute) and st.value.func.attr in ('pop', 'popleft') and \
+                    isinstance(st.value.func.value, ast.Name) and st.value.func.value.id == q:
+                popped = st.targets[0].id
+        if popped is None:
+            continue
+        stored_on = {tgt.value.id for st in none_stores if id(st) in inside for tgt in
+                     ([t_ for t_ in ast.walk(st) if isinstance(t_, ast.Attribute) and isinstance(t_.ctx, ast.Store) and isinstance(t_.value, ast.Name)])}
+        if popped not in stored_on:
+            continue
+        hcfg = cfg_of(h)
+        for asg in [n for n in ast.walk(wl) if isinstance(n, ast.Assign) and len(n.targets) == 1 and isinstance(n.targets[0], ast.Name)
+                    and n.targets[0].id == q]:
+            names = {x.id for x in ast.walk(asg.value) if isinstance(x, ast.Name)}
+            from_children = any(isinstance(x, ast.Attribute) and x.attr in ('children', 'all_children') and isinstance(x.value, ast.Name) and
+                                x.value.id == popped for x in ast.walk(asg.value))
+            an = hcfg.node_of(asg)
+            q_tested = an is None or any(isinstance(x, ast.Name) and x.id == q for t, p in hcfg.conditions(an) if t is not wl.test for x in ast.walk(t))
+            if q not in names and from_children and not q_tested and not any(isinstance(x, ast.Attribute) and x.attr == 'all_children' for x in ast.walk(asg.value)):
+                return q, asg
+    return None
+
+
 def cleared(ctx, o, S, fields=FIELDS):
     """the clearing loop lives in a helper called from calc (today: __prepare_tasks) or in calc itself"""
     prog = ctx.prog
@@ -253,6 +292,14 @@ def cleared(ctx, o, S, fields=FIELDS):
                 continue
             other = [st for st, tgt, val in _stores_elementwise(h) if tgt.attr in FIELDS and isinstance(val, ast.Constant) and val.value is None]
             if other and (h is calc or facts.calls_named(calc, h.name) or any(facts.calls_named(p_, h.name) for p_ in cands if p_ is not h)):
+                bad = _worklist_replaced(h, other)
+                if bad is not None:
+                    q_, asg = bad
+                    o.refute(h, asg, asg, f"the reset walks the tree with the work list `{q_}` (one task popped per round), but `{src(asg)}` REPLACES "
+                                          f"the list by the children of the popped task instead of adding them: the tasks still waiting in it "
+                                          f"(sibling branches) are dropped and the summaries among them keep the user's start/end/estimate/spent; "
+                                          f"expected every task of the WBS to be visited (<wbs>.tasks, or `{q_}.extend(<task>.children)`)")
+                    return
                 o.undecided(h, other[0], other[0], "summary fields are reset in a form the rule does not follow (not a loop over <wbs>.tasks)")
                 return
         o.refute(calc, calc.node, 'clearing of summary fields', "user values on summary tasks are never cleared before scheduling")
